@@ -44,7 +44,12 @@ Inductive expr :=
 | EHas (l : string) (p : list string) (d : expr)
       (* =has(steps.l.p) ? steps.l.p : d   — celpy: has() is false whenever the path does not resolve *)
 | EFlatten (e : expr)                    (* =flatten(e): koreo helper, list of lists -> list *)
-| EUse (args : list expr) (keep : expr).
+| EUse (args : list expr) (keep : expr)
+| EStepsAll                              (* =steps         the WHOLE map handed to the step *)
+| EStepsSize                             (* =size(steps)   *)
+| EStepsIn (l : string).                 (* ="l" in steps  *)
+      (* `steps` is only bound when the step has dependencies (the no-dependency branch of
+         _reconcile_step passes {parent} only); with dependencies and an open gate it is non-empty *)
       (* =[helper(args…), keep][1]: a koreo CEL helper (overlay, to_json, lower, split, flatten) is applied
          to the arguments and its result discarded; the harness only generates applications that succeed
          whenever the arguments evaluate *)
@@ -124,6 +129,9 @@ Fixpoint eval (e : expr) (en : env) {struct e} : option json :=
              end) xs
       | _ => None
       end
+  | EStepsAll => match e_steps en with [] => None | m => Some (JMap m) end
+  | EStepsSize => match e_steps en with [] => None | m => Some (JInt (Z.of_nat (List.length m))) end
+  | EStepsIn l => match e_steps en with [] => None | m => Some (JBool (mem_str l (map fst m))) end
   | EUse args keep =>
       match (fix go (l : list expr) : bool :=
                match l with
